@@ -121,7 +121,19 @@ fn mutate(root: &mut RItem, k: usize, src: &mut Src) -> bool {
         "duplicate-array-element" => {
             if let Some(RItem::A(xs, ..)) = pick_node(root, src, &|r| matches!(r, RItem::A(xs, ..) if xs.len() >= 2)) {
                 let i = 1 + src.below(xs.len() - 1);
-                let x = xs[i].clone();
+                let mut x = xs[i].clone();
+                // one repeat in three is the same element in ANOTHER form: its elided digest (decided by the
+                // element's bytes, no draw) - equal digests, different renditions
+                let xb = cbor::emit(&x);
+                if crate::src::fnv(&xb) % 3 == 0 {
+                    let mut tagged = vec![0xd8, 0xc8];
+                    tagged.extend(&xb);
+                    if let Ok((r, _)) = crate::model::parse_tagged(&tagged) {
+                        if !matches!(r.m, crate::model::M::Elided(_)) {
+                            x = RItem::B(r.m.digest().to_vec(), 0);
+                        }
+                    }
+                }
                 // adjacent (keeps ascending order except for the repeat) or at the end
                 if src.bool() {
                     xs.insert(i, x);
